@@ -53,9 +53,9 @@ class C17Bounded(Bounded):
                 else:
                     outs = [o + t for o in outs]
             return outs
-        for pos in ("string", "keyword", "regex", "contains"):
+        for pos in ("string", "keyword", "regex", "contains", "regex-flag-after", "regex-flags-around"):
             for v in vals:
-                if pos == "regex" and ("*" in v or "\\" in v):
+                if pos.startswith("regex") and ("*" in v or "\\" in v):
                     continue
                 for pname, pd in pipes.items():
                     ev += 1
@@ -63,7 +63,8 @@ class C17Bounded(Bounded):
                     if nph:
                         nontriv += 1
                     q = v.replace("'", "''")
-                    det = {"string": f"    f|expand: '{q}'", "contains": f"    f|expand|contains: '{q}'", "regex": f"    f|re|expand: '{q}'", "keyword": None}[pos]
+                    det = {"string": f"    f|expand: '{q}'", "contains": f"    f|expand|contains: '{q}'", "regex": f"    f|re|expand: '{q}'", "keyword": None,
+                           "regex-flag-after": f"    f|re|expand|i: '{q}'", "regex-flags-around": f"    f|re|m|expand|s: '{q}'"}[pos]
                     if pos == "keyword":
                         rule = f"title: t\nlogsource:\n  category: c\ndetection:\n  s:\n    '|expand':\n      - '{q}'\n  condition: s\n"
                     else:
@@ -110,10 +111,10 @@ class C17Bounded(Bounded):
                                     fail("order", f"{pos} value {v!r} with pipeline {pname}: combinations not in configuration order in {text!r}; expected order {exp}", [pos, v, pname])
                     else:
                         if exp is not None and pname != "none" or (pname == "none" and nph == 0):
-                            if (nph == 0 or exp is not None) and not (pos == "regex" and wild):      # a wildcard inside a regex may be an invalid regex: a Sigma error is fine
+                            if (nph == 0 or exp is not None) and not (pos.startswith("regex") and wild):      # a wildcard inside a regex may be an invalid regex: a Sigma error is fine
                                 fail("spurious-error", f"{pos} value {v!r} with pipeline {pname}: {type(err).__name__}: {err} although every placeholder is configured", [pos, v, pname])
                     if len(samples) < 4 and nph == 2 and pname == "values_all" and out:
                         samples.append({"position": pos, "value": v, "query": out[0]})
         return {"evaluations": ev, "distinct_nontrivial": nontriv, "failures": fails, "failure_counts": seen,
-                "bound": f"{len(vals)} values (<= 3 pieces over {pieces}) x 4 positions x {len(pipes)} pipelines", "rule": "distinct (position, value, pipeline); non-trivial = at least one placeholder",
+                "bound": f"{len(vals)} values (<= 3 pieces over {pieces}) x 6 positions (string, keyword, contains, regular expression without / followed by / surrounded by flag modifiers) x {len(pipes)} pipelines", "rule": "distinct (position, value, pipeline); non-trivial = at least one placeholder",
                 "samples": samples, "exhaustive": tier != "quick"}
